@@ -310,6 +310,202 @@ Proof.
   rewrite (str_decode_wtf8_text (length s) s (Nat.le_refl _) b Hdec). reflexivity.
 Qed.
 
+(* ===== soundness: whatever parse_str_raw accepts is a lexically well-formed literal, decoded by str_decode_wtf8 ===== *)
+Lemma wtf8_raw_app : forall chunk s, str_decode_wtf8 (map PRaw chunk ++ s) = chunk ++ str_decode_wtf8 s.
+Proof. induction chunk as [|x r IH]; intros s; [reflexivity|]. cbn [map app str_decode_wtf8]. rewrite IH. reflexivity. Qed.
+
+Lemma str_ok_raw_chunk : forall chunk,
+  Forall (fun x => x < 256) chunk -> forallb (fun b => negb (is_escape b false)) chunk = true ->
+  str_ok_raw (map PRaw chunk) = true.
+Proof.
+  induction chunk as [|b r IH]; intros HF Hall; [reflexivity|].
+  inversion HF as [|? ? Hb HF']; subst. cbn [forallb] in Hall.
+  apply andb_true_iff in Hall. destruct Hall as [Hesc Hall].
+  unfold str_ok_raw. cbn [map forallb piece_ok_raw]. fold (str_ok_raw (map PRaw r)). rewrite (IH HF' Hall).
+  rewrite is_escape_spec in Hesc. lia.
+Qed.
+
+Lemma str_ok_raw_app : forall s1 s2, str_ok_raw (s1 ++ s2) = str_ok_raw s1 && str_ok_raw s2.
+Proof. intros. unfold str_ok_raw. apply forallb_app. Qed.
+
+(* [r] is a piece reading of what comes next in the input [l] *)
+Definition follows (l : bytes) (r : list strpiece) : Prop := exists tail, l = render r ++ 34 :: tail.
+
+Lemma wdec_not_bslash : forall n r x l, follows (x :: l) r -> x <> 92 ->
+  wdec n r = utf8_encode n ++ str_decode_wtf8 r.
+Proof.
+  intros n r x l [tail Hf] Hx. unfold wdec. destruct (is_hi_surr n); [|reflexivity].
+  destruct r as [|[y|y|a b c d] r']; try reflexivity.
+  cbn [flat_map render_piece app] in Hf. injection Hf as -> _. contradiction Hx. reflexivity.
+Qed.
+
+Lemma uloop_raw_sound : forall cf f n l o p dp w s2,
+  n <= 65535 ->
+  unicode_loop f (SE cf) false n (mkSt l o p dp) = Ok (w, s2) ->
+  exists ps, l = render ps ++ rest s2 /\ str_ok ps = true /\
+    (forall r, follows (rest s2) r -> wdec n (ps ++ r) = w ++ str_decode_wtf8 r) /\
+    off s2 = (o + length (render ps))%nat /\ depth s2 = dp.
+Proof.
+  intros cf f. induction f as [|f IH]; intros n l o p dp w s2 Hn H; [discriminate H|].
+  rewrite unicode_loop_S in H.
+  destruct (is_hi_surr n) eqn:Hhi.
+  2:{ rewrite (nothi_range n Hhi), push_wtf8_any in H by lia. cbn [bind] in H. injection H as <- <-.
+      exists []. cbn [flat_map app rest off depth length].
+      split; [reflexivity|]. split; [reflexivity|]. split; [|split; [lia|reflexivity]].
+      intros r _. unfold wdec. rewrite Hhi. reflexivity. }
+  rewrite (hi_range n Hhi) in H.
+  destruct l as [|x l]; [discriminate H|].
+  unfold peek_or_eof, peek in H. cbn [rest off depth bind] in H.
+  destruct (N.eqb_spec x 92) as [->|Hx].
+  2:{ rewrite push_wtf8_any in H by lia. cbn [bind] in H. injection H as <- <-.
+      exists []. cbn [flat_map app rest off depth length].
+      split; [reflexivity|]. split; [reflexivity|]. split; [|split; [lia|reflexivity]].
+      intros r Hf. exact (wdec_not_bslash n r x l Hf Hx). }
+  unfold discard in H. cbn [rest tl off depth] in H.
+  destruct l as [|y l]; [discriminate H|]. cbn [bind] in H.
+  destruct (N.eqb_spec y 117) as [->|Hy].
+  2:{ rewrite push_wtf8_any in H by lia. cbn [bind] in H.
+      unfold parse_escape_nonu, next_or_eof, next in H. cbn [rest off depth bind] in H.
+      rewrite escape_simple_spec in H. destruct (esc_letter y) eqn:Hl; [|discriminate H].
+      cbn [bind] in H. injection H as <- <-.
+      exists [PEsc y]. cbn [flat_map render_piece app rest off depth length].
+      split; [reflexivity|]. split; [unfold str_ok; cbn [forallb piece_ok]; rewrite Hl; reflexivity|].
+      split; [|split; [lia|reflexivity]].
+      intros r _. unfold wdec. rewrite Hhi. cbn [app str_decode_wtf8]. rewrite <- app_assoc. reflexivity. }
+  unfold discard in H. cbn [rest tl off depth] in H.
+  destruct l as [|a [|b [|c [|d l']]]]; try discriminate H.
+  rewrite decode_hex_escape_slice, decode_four_hex_spec_gen in H. fold (hex4 a b c d) in H.
+  destruct (hex4 a b c d) eqn:Hh; [|discriminate H]. cbn [bind] in H.
+  pose proof (u4_val_lt a b c d Hh) as Hlt2.
+  assert (Hok1 : str_ok [PU4 a b c d] = true).
+  { unfold str_ok. cbn [forallb piece_ok]. unfold hex4 in Hh. rewrite Hh. reflexivity. }
+  destruct (is_lo_surr (u4_val a b c d)) eqn:Hlo2.
+  - replace ((u4_val a b c d <? 56320) || (57343 <? u4_val a b c d)) with false in H
+      by (unfold is_lo_surr in Hlo2; lia).
+    rewrite pair_cp_lor in H by exact Hlo2.
+    rewrite push_wtf8_any in H
+      by (pose proof (pair_cp_scalar n _ Hhi Hlo2) as Hs; unfold is_scalar in Hs; lia).
+    cbn [bind] in H. injection H as <- <-.
+    exists [PU4 a b c d]. cbn [flat_map render_piece app rest off depth length].
+    split; [reflexivity|]. split; [exact Hok1|]. split; [|split; [lia|reflexivity]].
+    intros r _. unfold wdec. rewrite Hhi. cbn [app]. cbv zeta. rewrite Hlo2. reflexivity.
+  - replace ((u4_val a b c d <? 56320) || (57343 <? u4_val a b c d)) with true in H
+      by (unfold is_lo_surr in Hlo2; lia).
+    rewrite push_wtf8_any in H by lia. cbn [bind] in H.
+    destruct (unicode_loop f (SE cf) false (u4_val a b c d) (mkSt l' (S (S o) + 4) false dp))
+      as [[w' s6]|c0 i0| |] eqn:Hrec; try discriminate H.
+    cbn [bind] in H. injection H as <- <-.
+    assert (Hle2 : u4_val a b c d <= 65535) by lia.
+    destruct (IH _ _ _ _ _ _ _ Hle2 Hrec) as (ps' & Hl' & Hok' & Hdec' & Hoff' & Hdp').
+    exists (PU4 a b c d :: ps'). cbn [flat_map render_piece app length].
+    split; [rewrite Hl'; reflexivity|].
+    split; [unfold str_ok in *; cbn [forallb]; rewrite Hok'; cbn [piece_ok]; unfold hex4 in Hh; rewrite Hh; reflexivity|].
+    split; [|split; [rewrite Hoff'; lia|exact Hdp']].
+    intros r Hf. unfold wdec. rewrite Hhi. cbn [app]. cbv zeta. rewrite Hlo2.
+    rewrite wtf8_u4, (Hdec' r Hf), app_assoc. reflexivity.
+Qed.
+
+Lemma parse_escape_sound_raw : forall f cf l o p dp w s2,
+  parse_escape f (SE cf) false (mkSt l o p dp) = Ok (w, s2) ->
+  exists ps,
+    92 :: l = render ps ++ rest s2 /\ str_ok ps = true /\
+    (forall r, follows (rest s2) r -> str_decode_wtf8 (ps ++ r) = w ++ str_decode_wtf8 r) /\
+    (S (off s2) = o + length (render ps))%nat /\ depth s2 = dp /\
+    (forall r, forallb is_raw (ps ++ r) = false).
+Proof.
+  intros f cf l o p dp w s2 H.
+  destruct l as [|ch l]; [rewrite parse_escape_nil in H; discriminate H|].
+  destruct (N.eqb_spec ch 117) as [->|Hch].
+  - destruct l as [|a [|b [|c [|d tl]]]]; try discriminate H.
+    destruct (hex4 a b c d) eqn:Hh.
+    2:{ rewrite parse_escape_cons in H. change (117 =? 117) with true in H. cbv iota in H.
+        unfold parse_unicode_escape in H.
+        rewrite decode_hex_escape_slice, decode_four_hex_spec_gen in H. fold (hex4 a b c d) in H.
+        rewrite Hh in H. discriminate H. }
+    rewrite parse_escape_u_raw in H by exact Hh.
+    pose proof (u4_val_lt a b c d Hh) as Hlt.
+    assert (Hle : u4_val a b c d <= 65535) by lia.
+    destruct (uloop_raw_sound cf f _ _ _ _ _ _ _ Hle H) as (ps' & Hl' & Hok' & Hdec' & Hoff' & Hdp').
+    exists (PU4 a b c d :: ps'). cbn [flat_map render_piece app length].
+    split; [rewrite Hl'; reflexivity|].
+    split; [unfold str_ok in *; cbn [forallb]; rewrite Hok'; cbn [piece_ok]; unfold hex4 in Hh; rewrite Hh; reflexivity|].
+    split; [intros r Hf; rewrite wtf8_u4; exact (Hdec' r Hf)|].
+    split; [rewrite Hoff'; lia|]. split; [exact Hdp'|]. intros r. reflexivity.
+  - rewrite parse_escape_cons in H. apply N.eqb_neq in Hch. rewrite Hch, escape_simple_spec in H.
+    destruct (esc_letter ch) eqn:Hl; [|discriminate H].
+    injection H as <- <-.
+    exists [PEsc ch]. cbn [rest off pk depth flat_map render_piece app length].
+    split; [reflexivity|]. split; [unfold str_ok; cbn [forallb piece_ok]; rewrite Hl; reflexivity|].
+    split; [intros r _; reflexivity|]. split; [lia|]. split; reflexivity.
+Qed.
+
+Lemma raw_loop_sound : forall cf fuel s0 out cp s1,
+  Forall (fun x => x < 256) (rest s0) ->
+  slice_str_loop fuel (SE cf) false s0 = Ok (out, cp, s1) ->
+  exists s, rest s0 = render s ++ 34 :: rest s1 /\ str_ok_raw s = true /\
+            str_decode_wtf8 s = out /\
+            (off s1 = off s0 + length (render s) + 1)%nat /\
+            pk s1 = false /\ depth s1 = depth s0 /\ cp = negb (forallb is_raw s).
+Proof.
+  intros cf fuel. induction fuel as [|f IH]; intros s0 out cp s1 HF H; [discriminate H|].
+  destruct s0 as [l o p dp]. cbn [rest off depth] in *.
+  rewrite slice_loop_S in H. cbn [rest] in H. cbv zeta in H.
+  set (n := esc_span false l) in *.
+  pose proof (firstn_skipn n l) as Hsplit.
+  pose proof (span_firstn_all (fun b => negb (is_escape b false)) l) as Hall.
+  fold (esc_span false l) in Hall. fold n in Hall.
+  assert (Hn : length (firstn n l) = n).
+  { apply firstn_length_le. apply span_len_le. }
+  set (chunk := firstn n l) in *.
+  assert (HFc : Forall (fun x => x < 256) chunk /\ Forall (fun x => x < 256) (skipn n l)).
+  { rewrite <- Hsplit in HF. apply Forall_app in HF. exact HF. }
+  destruct HFc as [HFc HFs].
+  unfold advance in H. cbn [rest off depth] in H.
+  destruct (skipn n l) as [|b tl] eqn:Hsk; [discriminate H|].
+  destruct (N.eqb_spec b 34) as [->|Hb34].
+  { injection H as <- <- <-. exists (map PRaw chunk). cbn [rest off pk depth skipn].
+    rewrite render_raw. split; [symmetry; exact Hsplit|].
+    split; [apply str_ok_raw_chunk; assumption|].
+    split.
+    { rewrite <- (app_nil_r (map PRaw chunk)), wtf8_raw_app. cbn [str_decode_wtf8]. apply app_nil_r. }
+    split; [lia|]. split; [reflexivity|]. split; [reflexivity|].
+    rewrite <- (app_nil_r (map PRaw chunk)), is_raw_map_app. reflexivity. }
+  destruct (N.eqb_spec b 92) as [->|Hb92]; [|discriminate H].
+  cbn [skipn] in H.
+  apply bind_ok in H. destruct H as ([w s2] & Hesc & H).
+  apply bind_ok in H. destruct H as ([[out' cp'] s3] & Hloop & H).
+  injection H as <- <- <-.
+  apply parse_escape_sound_raw in Hesc.
+  destruct Hesc as (ps & Hrender & Hps & Hdec & Hoff & Hdp & Hraw).
+  assert (HF2 : Forall (fun x => x < 256) (rest s2)).
+  { rewrite Hrender in HFs. apply Forall_app in HFs. apply HFs. }
+  destruct (IH s2 out' cp' s3 HF2 Hloop) as (s' & Hr' & Hok' & Hdec' & Hoff' & Hpk' & Hdp' & Hcp').
+  exists (map PRaw chunk ++ ps ++ s').
+  split.
+  { rewrite !flat_map_app, render_raw, <- !app_assoc, <- Hr', <- Hrender. symmetry. exact Hsplit. }
+  split.
+  { rewrite !str_ok_raw_app, (str_ok_raw_of_ok ps Hps), Hok', (str_ok_raw_chunk chunk HFc Hall). reflexivity. }
+  split.
+  { rewrite wtf8_raw_app, (Hdec s' (ex_intro _ (rest s3) Hr')), Hdec'. reflexivity. }
+  split.
+  { rewrite !flat_map_app, render_raw, !app_length. lia. }
+  split; [exact Hpk'|]. split; [congruence|].
+  rewrite is_raw_map_app, Hraw. reflexivity.
+Qed.
+
+Theorem parse_str_raw_sound : forall cf s0 b bw s1,
+  Forall (fun x => (x < 256)%N) (rest s0) ->
+  parse_str_raw (mkEnv RSlice TEof cf) s0 = Ok (b, bw, s1) ->
+  exists s, rest s0 = render s ++ 34 :: rest s1 /\ str_ok_raw s = true /\ str_decode_wtf8 s = b
+         /\ (off s1 = off s0 + length (render s) + 1)%nat /\ pk s1 = false /\ depth s1 = depth s0
+         /\ bw = forallb (fun p => match p with PRaw _ => true | _ => false end) s.
+Proof.
+  intros cf s0 b bw s1 HF H. unfold parse_str_raw in H. cbn [rk] in H.
+  apply bind_ok in H. destruct H as ([[out cp] s1'] & Hloop & H). injection H as <- <- <-.
+  destruct (raw_loop_sound cf _ s0 out cp s1' HF Hloop) as (s & Hr & Hok & Hdec & Hoff & Hpk & Hdp & Hcp).
+  exists s. repeat split; try assumption. rewrite Hcp, negb_involutive. reflexivity.
+Qed.
+
 (* examples: unpaired surrogates, raw control characters, raw non-UTF-8 bytes *)
 Section Examples.
   Let cf0 := mkCfg false false false false.
@@ -334,3 +530,4 @@ Print Assumptions str_decode_wtf8_text.
 Print Assumptions parse_str_raw_complete.
 Print Assumptions parse_str_raw_complete_str.
 Print Assumptions parse_str_raw_complete_io.
+Print Assumptions parse_str_raw_sound.
